@@ -215,6 +215,27 @@ Definition field_report (verbosity : Z) (st : sys_state) (source : obj) (message
 (* epydoc2stan.extract_fields: the line of an attribute documented by @ivar/@cvar/@var/@type *)
 Definition field_attr_lineno (docstring_lineno field_lineno : Z) : Z := docstring_lineno + field_lineno.
 
+(* restructuredtext._SplitFieldsTranslator._add_field(tagname, arg, fbody, lineno):
+        self.fields.append(Field(tagname, arg, field_parsed_doc, lineno - 1))
+   lineno is docutils' 1-based line: node.line of the field (visit_field), fbody[0].line of a bullet-list item or
+   item[0].line of a definition-list term of a consolidated field; the @newfield of an unsplittable consolidated
+   field gets node.line - 1 as well. *)
+Definition rst_field_lineno (docutils_line : Z) : Z := docutils_line - 1.
+
+(* epytext: Element('field', lineno=str(bullet_token.startline)) ... Field(tag, arg, doc, int(field.attribs['lineno'])) *)
+Definition epytext_field_lineno (bullet_startline : nat) : Z := Z.of_nat bullet_startline.
+
+(* pydoctor.epydoc.docutils.get_lineno(node) for a title_reference:
+        if node.line: line = node.line
+        else: line = get_first_parent_lineno(node.parent)
+   get_first_parent_lineno walks up to the first ancestor with a (truthy) line:
+        line = _node.line - 1 (+ the number of '\n' in the ancestor's rawsource before the node's rawsource, when both
+        rawsources exist and one contains the other) ; no such ancestor: 0.
+   node_line = 0 stands for None/0; `ancestor` = (line of that ancestor, newlines counted). *)
+Definition get_lineno (node_line : Z) (ancestor : option (Z * Z)) : Z :=
+  if negb (node_line =? 0) then node_line
+  else match ancestor with Some (pl, nl) => pl - 1 + nl | None => 0 end.
+
 (* linker._EpydocLinker._resolve_identifier_xref: reporting_obj.report(message, 'resolve_identifier_xref', lineno) *)
 Definition xref_report (verbosity : Z) (st : sys_state) (reporting_obj : obj) (message : text) (lineno : Z)
   : sys_state :=
@@ -256,6 +277,8 @@ Definition one_run (verbosity : Z) (wae : bool) (header : text) (o : obj) (ps : 
      6 verbosity wae header violations ( (section (name ...)) ... )
                                                -> ( code violations number-of-printed-lines )
      8 docutils-line-opt                       -> ( stored-opt offset )      (rst_reader_perr)
+    12 docutils-line                           -> rst_field_lineno
+    11 node-line ancestor-opt                  -> get_lineno        ancestor-opt := () | ( (line newlines) )
     10 own-source-path-opt module-fullname     -> description
      9 node-line                               -> ( stored-opt offset )      (rst_consolidated_perr)
      7 verbosity wae header description fullname is_module linenumber has_doc node_lineno doc ( problem ... )
@@ -327,6 +350,9 @@ Definition run (s : sexp) : sexp :=
   | 8 =>
     let e := rst_reader_perr [] (to_optZ (nth_s 1 s)) in
     L [of_option A (pe_stored e); A (perr_offset e)]
+  | 12 => A (rst_field_lineno (to_Z (nth_s 1 s)))
+  | 11 => A (get_lineno (to_Z (nth_s 1 s))
+                        (to_option (fun p => (to_Z (nth_s 0 p), to_Z (nth_s 1 p))) (nth_s 2 s)))
   | 10 => of_text (description (to_option to_text (nth_s 1 s)) (to_text (nth_s 2 s)))
   | 9 =>
     let e := rst_consolidated_perr [] (to_Z (nth_s 1 s)) in
